@@ -15,11 +15,57 @@ import (
 func init() { register("C02", checkC02) }
 
 // closuresIn returns the func literals of a method body.
+// closuresIn lists the function values a builder creates: its func literals
+// and — read the same way, as a literal that captures nothing — the named
+// functions of its package that it mentions as values (a closure that was
+// given a name and moved to package level).
 func closuresIn(fd *ast.FuncDecl) []*ast.FuncLit {
 	var out []*ast.FuncLit
+	callee := map[*ast.Ident]bool{}
 	ast.Inspect(fd.Body, func(n ast.Node) bool {
-		if fl, ok := n.(*ast.FuncLit); ok {
-			out = append(out, fl)
+		switch x := n.(type) {
+		case *ast.FuncLit:
+			out = append(out, x)
+		case *ast.CallExpr:
+			if id, ok := x.Fun.(*ast.Ident); ok {
+				callee[id] = true
+			}
+		}
+		return true
+	})
+	w := theWorld
+	if w == nil {
+		return out
+	}
+	var pk *packages.Package
+	for _, p := range w.All {
+		for _, f := range p.Syntax {
+			if f.Pos() <= fd.Pos() && fd.End() <= f.End() {
+				pk = p
+			}
+		}
+	}
+	if pk == nil {
+		return out
+	}
+	seen := map[types.Object]bool{}
+	inspectNoLit(fd.Body, func(n ast.Node) bool {
+		id, ok := n.(*ast.Ident)
+		if !ok || callee[id] {
+			return true
+		}
+		fn, ok := pk.TypesInfo.Uses[id].(*types.Func)
+		if !ok || fn.Pkg() != pk.Types || seen[fn] {
+			return true
+		}
+		if sig, ok := fn.Type().(*types.Signature); !ok || sig.Recv() != nil {
+			return true
+		}
+		seen[fn] = true
+		for _, d := range funcDecls(pk) {
+			if pk.TypesInfo.Defs[d.Name] == types.Object(fn) && d.Body != nil {
+				out = append(out, &ast.FuncLit{Type: d.Type, Body: d.Body})
+			}
 		}
 		return true
 	})
@@ -422,80 +468,98 @@ func c02Keys(w *World, r *Report) {
 func c02Value(w *World, r *Report) {
 	m := w.Method("xpath", "ProgBuilder", "EvalLocPathInternal")
 	fd, p := w.FuncDecl(m)
-	var pathObj, entryObj, valObj types.Object
+	_ = p
+	// what is pushed is GetValue() of the entry Navigate() returned for the path PopPath() returned —
+	// followed through helpers of the module that hand these values on
 	okNav, okVal, okPush := false, false, false
-	for _, s := range fd.Body.List {
-		switch x := s.(type) {
-		case *ast.AssignStmt:
-			if len(x.Rhs) != 1 {
-				continue
+	if f := w.SSAFunc(m); f != nil {
+		sym := NewSym(w)
+		sym.originStop = func(g *ssa.Function) bool { return nm(g) == "PopPath" }
+		invoke := func(v ssa.Value, name string) *ssa.Call {
+			ex, ok := v.(*ssa.Extract)
+			if !ok || ex.Index != 0 {
+				return nil
 			}
-			ce, ok := x.Rhs[0].(*ast.CallExpr)
-			if !ok {
-				continue
+			c, ok := ex.Tuple.(*ssa.Call)
+			if !ok || !c.Call.IsInvoke() || c.Call.Method.Name() != name {
+				return nil
 			}
-			c := calleeOf(p, ce)
-			if c == nil {
-				continue
-			}
-			switch nm(c) {
-			case "PopPath":
-				pathObj = objOfIdent(p, x.Lhs[0])
-			case "Navigate":
-				if len(ce.Args) == 1 && pathObj != nil && objOfIdent(p, ce.Args[0]) == pathObj {
-					okNav = true
-					entryObj = objOfIdent(p, x.Lhs[0])
+			return c
+		}
+		for _, b := range f.Blocks {
+			for _, in := range b.Instrs {
+				c, ok := in.(*ssa.Call)
+				if !ok || c.Call.StaticCallee() == nil || nm(c.Call.StaticCallee()) != "pushDatum" || len(c.Call.Args) != 2 {
+					continue
 				}
-			case "GetValue":
-				if se, ok := ce.Fun.(*ast.SelectorExpr); ok && entryObj != nil && objOfIdent(p, se.X) == entryObj {
-					okVal = true
-					valObj = objOfIdent(p, x.Lhs[0])
+				okPush, okVal, okNav = true, true, true
+				for _, o := range sym.Origins(c.Call.Args[1], nil, 0) {
+					gv := invoke(o.v, "GetValue")
+					if gv == nil {
+						okPush = false
+						continue
+					}
+					for _, e := range sym.Origins(gv.Call.Value, o.ctx, 0) {
+						nv := invoke(e.v, "Navigate")
+						if nv == nil || len(nv.Call.Args) != 1 {
+							okVal = false
+							continue
+						}
+						for _, pth := range sym.Origins(nv.Call.Args[0], e.ctx, 0) {
+							pc, ok := pth.v.(*ssa.Call)
+							if !ok || pc.Call.StaticCallee() == nil || nm(pc.Call.StaticCallee()) != "PopPath" {
+								okNav = false
+							}
+						}
+					}
 				}
 			}
-		case *ast.ExprStmt:
-			if ce, ok := x.X.(*ast.CallExpr); ok {
-				if c := calleeOf(p, ce); c != nil && nm(c) == "pushDatum" && valObj != nil && objOfIdent(p, ce.Args[0]) == valObj {
-					okPush = true
-				}
-			}
+		}
+		if !okPush {
+			okVal, okNav = false, false
 		}
 	}
 	r.Check(okNav, "R02.5", "EvalLocPathInternal navigates the popped path", fd.Pos(), "Navigate(PopPath())", "the tree is asked for a path other than the one just completed")
 	r.Check(okVal, "R02.5", "EvalLocPathInternal reads the navigated entry", fd.Pos(), "GetValue on Navigate's result", "the value is not read from the entry Navigate returned")
 	r.Check(okPush, "R02.5", "EvalLocPathInternal pushes the tree's value", fd.Pos(), "pushDatum(GetValue's result)", "the pushed datum is not the value the tree reported")
-	// deref
+	// deref: the instruction (wherever it is declared) that follows the leafref pushes the path of
+	// the entry FollowLeafRef returned (a copy of it counts, R06.8 asks for the copy)
 	d := w.Method("xpath", "ProgBuilder", "Deref")
-	dfd, dp := w.FuncDecl(d)
+	dfd, _ := w.FuncDecl(d)
 	okD := false
-	var lref types.Object
-	ast.Inspect(dfd.Body, func(n ast.Node) bool {
-		switch x := n.(type) {
-		case *ast.AssignStmt:
-			if len(x.Rhs) == 1 {
-				if ce, ok := x.Rhs[0].(*ast.CallExpr); ok {
-					if c := calleeOf(dp, ce); c != nil && nm(c) == "FollowLeafRef" {
-						lref = objOfIdent(dp, x.Lhs[0])
-					}
+	for _, g := range allFuncs(w.SSAPkg("xpath")) {
+		if isTestFile(w, g.Pos()) {
+			continue
+		}
+		var follow *ssa.Call
+		for _, b := range g.Blocks {
+			for _, in := range b.Instrs {
+				if c, ok := in.(*ssa.Call); ok && c.Call.IsInvoke() && c.Call.Method.Name() == "FollowLeafRef" {
+					follow = c
 				}
 			}
-		case *ast.CallExpr:
-			if c := calleeOf(dp, x); c != nil && nm(c) == "PushPath" && len(x.Args) == 1 {
-				arg := x.Args[0]
-				// a copy of the path is the same path for this rule (R06.8 asks for the copy)
-				if cp, ok := arg.(*ast.CallExpr); ok && len(cp.Args) == 0 {
-					if se, ok := cp.Fun.(*ast.SelectorExpr); ok && se.Sel.Name == "DeepCopy" {
-						arg = se.X
-					}
+		}
+		if follow == nil {
+			continue
+		}
+		for _, b := range g.Blocks {
+			for _, in := range b.Instrs {
+				c, ok := in.(*ssa.Call)
+				if !ok || c.Call.StaticCallee() == nil || nm(c.Call.StaticCallee()) != "PushPath" || len(c.Call.Args) != 2 {
+					continue
 				}
-				if inner, ok := arg.(*ast.CallExpr); ok {
-					if se, ok := inner.Fun.(*ast.SelectorExpr); ok && se.Sel.Name == "GetSdcpbPath" && lref != nil && objOfIdent(dp, se.X) == lref {
+				v := c.Call.Args[1]
+				if cp, ok := v.(*ssa.Call); ok && cp.Call.StaticCallee() != nil && cp.Call.StaticCallee().Name() == "DeepCopy" && len(cp.Call.Args) == 1 {
+					v = cp.Call.Args[0]
+				}
+				if gp, ok := v.(*ssa.Call); ok && gp.Call.IsInvoke() && gp.Call.Method.Name() == "GetSdcpbPath" {
+					if ex, ok := gp.Call.Value.(*ssa.Extract); ok && ex.Tuple == ssa.Value(follow) && ex.Index == 0 {
 						okD = true
 					}
 				}
 			}
 		}
-		return true
-	})
+	}
 	r.Check(okD, "R02.5", "deref pushes the referenced entry's path", dfd.Pos(), "PushPath(FollowLeafRef().GetSdcpbPath())", "deref() does not continue from the path of the node the leafref points to")
 }
 
